@@ -864,7 +864,11 @@ class Config(DataProxy):
         if absolute:
             absolute_path = getattr(self, path)
             # None -> expected absolute path but none set, short circuit
+            # (still honoring a requested merge: the level may just have
+            # been unset and must disappear from the merged view.)
             if absolute_path is None:
+                if merge:
+                    self.merge()
                 return
             paths = [absolute_path]
         else:
@@ -872,6 +876,8 @@ class Config(DataProxy):
             # Short circuit if loading seems unnecessary (eg for project config
             # files when not running out of a project)
             if path_prefix is None:
+                if merge:
+                    self.merge()
                 return
             paths = [
                 ".".join((path_prefix + midfix, x))
